@@ -18,7 +18,7 @@ use crate::{
 const T_F: u64 = 5_000_000_000;
 const BOUND_NS: u64 = 3_600_000_000_000;
 
-fn diag(w: &World) -> String {
+pub fn diag(w: &World) -> String {
     let mut s = String::new();
     for (ei, e) in w.eps.iter().enumerate() {
         for (ch, c) in &e.conns {
